@@ -13,7 +13,7 @@ import (
 // pureStdlib: external functions assumed to have no effect on memory visible to the caller
 // and to return normally (no panic) for all inputs. Listed in evidence as assumptions when used.
 var pureStdlib = map[string]bool{
-	"fmt.Errorf": true, "fmt.Sprintf": true, "fmt.Sprint": true, "errors.New": true,
+	"fmt.Errorf": true, "fmt.Sprintf": true, "fmt.Sprint": true, "errors.New": true, "errors.Is": true,
 	"unicode/utf8.DecodeRune": true, "unicode/utf8.DecodeRuneInString": true, "unicode/utf8.RuneLen": true,
 	"unicode/utf8.ValidString": true, "unicode/utf8.Valid": true, "unicode/utf8.RuneCountInString": true,
 	"unicode/utf8.DecodeLastRuneInString": true, "unicode/utf8.DecodeLastRune": true, "unicode/utf8.ValidRune": true,
@@ -36,7 +36,7 @@ var pureStdlib = map[string]bool{
 	"crypto/sha1.Sum": true,
 	"time.Now": true,
 	"(*sync.Pool).Get": true, "(*sync.Pool).Put": true,
-	"(*gopkg.in/src-d/go-errors.v1.Kind).New": true, "gopkg.in/src-d/go-errors.v1.NewKind": true, "(*gopkg.in/src-d/go-errors.v1.Kind).Is": true,
+	"(*gopkg.in/src-d/go-errors.v1.Kind).New": true, "gopkg.in/src-d/go-errors.v1.NewKind": true, "(*gopkg.in/src-d/go-errors.v1.Kind).Is": true, "gopkg.in/src-d/go-errors.v1.Is": true,
 	"(time.Duration).String": true, "(time.Duration).Seconds": true, "(time.Time).Sub": true, "time.Since": true, "(time.Time).Unix": true, "(time.Time).UnixMicro": true, "(time.Time).Hour": true, "(time.Time).Minute": true,
 	"(time.Time).Second": true, "(time.Time).Nanosecond": true, "(time.Time).IsZero": true, "(time.Time).Equal": true, "(time.Time).Before": true, "(time.Time).After": true,
 	"(*github.com/cockroachdb/apd/v3.Decimal).Cmp": true, "(*github.com/cockroachdb/apd/v3.Decimal).String": true, "(*github.com/cockroachdb/apd/v3.Decimal).Text": true,
